@@ -1080,6 +1080,19 @@ class FuncAnalysis:
         # Generic alias call: ObjectStream[T](...)
         if callee[0] in ("index", "subscript") and callee[1][0] == "global":
             callee = callee[1]
+        # functools.partial(f, a, k=b)(c) is f(a, c, k=b)
+        if callee[0] == "app" and callee[1] == ("global", "functools.partial") and callee[2] and not any(k_ is None for k_, _v in callee[3]):
+            f0, bound = strip_sites(callee[2][0]), list(callee[2][1:])
+            kws2 = [(k_, v_) for k_, v_ in callee[3] if k_ not in {x_ for x_, _y in kws}] + list(kws)
+            if f0[0] == "attr" and self.fi.cls is not None and self.fi.params and f0[1] == ("param", self.fi.params[0]):
+                r = self._method_call(self.fi.cls, f0[2], f0[1], bound + args, kws2, site, depth)
+                if r is not None:
+                    return r
+            if f0[0] == "global":
+                r = m.lookup_target(f0[1])
+                if isinstance(r, FuncInfo) and r.cls is None:
+                    self.ctx.resolved_calls += 1
+                    return self._inline(r, bound + args, kws2, site, depth)
         # Cls.meth(self, ...)  explicit base call
         if callee[0] == "global":
             tgt = callee[1]
